@@ -102,6 +102,16 @@ inline void run_case(const std::string& line) {
                 int code = -1;
                 gen::with_event(ev, pl, [&](auto&& e) { typedef std::decay_t<decltype(e)> E; code = api_code(cur().process_event(E(e))); });
                 tok("]=" + std::to_string(code)); end_op(); emit_ids();
+            } else if (k == "RP") {  // RP:ev:count:val  the same event `count` times, trace suppressed (counter boundaries)
+                int ev = atoi(f[1].c_str()); long n = atol(f[2].c_str());
+                begin_op(strtoull(f[3].c_str(), 0, 16));
+                std::string saved = c.out;
+                for (long i = 0; i < n; ++i) {
+                    gen::with_event(ev, 0, [&](auto&& e) { typedef std::decay_t<decltype(e)> E; cur().process_event(E(e)); });
+                    c.out.clear();
+                }
+                c.out = saved;
+                tok("[RP" + std::to_string(ev) + "x" + std::to_string(n) + "]"); end_op(); emit_ids();
             } else if (k == "Q") {   // Q:ev:payload
                 int ev = atoi(f[1].c_str()); int pl = atoi(f[2].c_str());
                 tok("[Q" + std::to_string(ev) + "#" + std::to_string(pl));
